@@ -912,6 +912,65 @@ struct Gen {
         return k;
     }
 
+    // A keyword that the code must reject because it would read an undefined ACTIVE cell: a non-assigning
+    // scalar operation (box or region form), OPERATE or COPY aimed at an existing array that still has an
+    // uninitialised (or, for COPY, defaulted) active cell.
+    std::optional<KwOp> targetedReject(const Case& c, int sec, const RefState& s) {
+        // arrays with an uninitialised active cell / with a not-deck-value active cell
+        std::vector<std::string> dU, iU, dN, iN;
+        for (const auto& kv : s.d) {
+            if (kv.first.rfind(MULT_PREFIX, 0) == 0) continue;
+            bool u = false, nd = false;
+            for (int g = 0; g < s.n(); ++g) if (s.act[g]) { u = u || kv.second[g].st == 'u'; nd = nd || kv.second[g].st != 'v'; }
+            if (u) dU.push_back(kv.first);
+            if (nd && !u) dN.push_back(kv.first);
+        }
+        for (const auto& kv : s.i) {
+            if (kv.first == "ACTNUM") continue;
+            bool u = false, nd = false;
+            for (int g = 0; g < s.n(); ++g) if (s.act[g]) { u = u || kv.second[g].st == 'u'; nd = nd || kv.second[g].st != 'v'; }
+            if (u) iU.push_back(kv.first);
+            if (nd && !u) iN.push_back(kv.first);
+        }
+        KwOp k;
+        Rec r;
+        r.box.v[0] = 1; r.box.v[1] = c.nx; r.box.v[2] = 1; r.box.v[3] = c.ny; r.box.v[4] = 1; r.box.v[5] = c.nz;
+        if (rng.coin(1, 3)) r.box = randBox(c, false);
+        std::vector<int> kinds = { 0, 1, 4, 5, 6, 7 };
+        if (sec <= 2) { kinds.push_back(2); kinds.push_back(3); kinds.push_back(2); kinds.push_back(3); }
+        const int kind = rng.pick(kinds);
+        static const char* SC[] = { "ADD", "MULTIPLY", "MINVALUE", "MAXVALUE" };
+        if (kind <= 3) {
+            const bool useInt = dU.empty() || (!iU.empty() && rng.coin(1, 3));
+            if (useInt && iU.empty()) return std::nullopt;
+            k.type = KT::SCAL; k.name = SC[kind];
+            r.a = useInt ? rng.pick(iU) : rng.pick(dU);
+            r.val = useInt ? (double) rng.range(0, 4) : niceD(true);
+        } else if (kind <= 5) {
+            if (dU.empty()) return std::nullopt;
+            k.type = KT::SREG; k.name = kind == 4 ? "ADDREG" : "MULTIREG";
+            r.a = rng.pick(dU); r.val = niceD(true); r.rv = rng.range(1, 3);
+            r.rs = rng.pick(std::vector<std::string>{ "*", "F", "M", "O" });
+        } else if (kind == 6) {
+            if (dU.empty()) return std::nullopt;
+            k.type = KT::OPER;
+            const std::string name = rng.pick(dU);
+            r.fn = rng.pick(std::vector<std::string>{ "MULTA", "POLY", "MULTIPLY", "COPY", "ABS", "MINLIM" });
+            if ((r.fn == "POLY" || r.fn == "MULTIPLY") && rng.coin()) { r.a = name; r.b = pickD(sec, true); }
+            else { r.a = pickD(sec, true); r.b = name; }
+            r.val = niceD(true); r.val2 = 1.0;
+        } else {
+            const bool useInt = (dN.empty() && dU.empty()) || rng.coin(1, 3);
+            std::vector<std::string> pool = useInt ? iN : dN;
+            for (const auto& x : (useInt ? iU : dU)) pool.push_back(x);
+            if (pool.empty()) return std::nullopt;
+            k.type = KT::COPY;
+            r.b = rng.pick(pool); r.a = useInt ? pickI(sec, true) : pickD(sec, true);
+        }
+        k.recs.push_back(r);
+        return k;
+    }
+
     // PORO is a "distribute top layer" keyword in the GRID section: phase-1 programs only assign it
     // where that post-processing cannot trigger (see design.d/C12.md)
     static bool topSafe(const KwOp& k, const RefState& s) {
@@ -960,6 +1019,7 @@ struct Gen {
                 const bool seekErr = (done == errAt);
                 for (int attempt = 0; attempt < (seekErr ? 40 : 12); ++attempt) {
                     KwOp k = randKw(c, sec, s);
+                    if (seekErr && rng.coin(3, 4)) { if (auto tk = targetedReject(c, sec, s)) k = *tk; }
                     if (!topLayerModelled && sec == 0 && !topSafe(k, s)) continue;
                     RefState t = s;
                     bool ok = true;
